@@ -411,6 +411,13 @@ func (r *runner) parseStep(f frameSpec) []packet.Notification {
 	return r.lib("frame", func(o *outT) {
 		o.op = tok(false)
 		fr, _ := r.s.Parse(b)
+		// a receive loop reuses its buffer: keep private copies of the addresses the later Notify reads and
+		// overwrite the packet buffer — nothing the session retained may change (the tables are dumped afterwards)
+		fr.SrcAddr.MAC = append(net.HardwareAddr(nil), fr.SrcAddr.MAC...)
+		fr.DstAddr.MAC = append(net.HardwareAddr(nil), fr.DstAddr.MAC...)
+		for i := range b {
+			b[i] = 0xee
+		}
 		r.fr = fr
 		if fr.Host != nil {
 			o.hostKey = ipTok(fr.Host.Addr.IP)
